@@ -505,4 +505,6 @@ func runC07(r *mon.Run) {
 		_ = secp256k1.ScalarSize
 	})
 	runColdStart(r, "c07", r.N(18, 300), "verify", "btcverify", "recover")
+	// results that are functions of the arguments alone do not depend on the process-wide system entropy stream
+	runDegradedEntropy(r, "c07", r.N(20, 300), "verify")
 }
